@@ -469,6 +469,10 @@ def shape_cases(draw):
     counts = [[names[i], draw(st.sampled_from([1, 1, 2, 3, 4, 5, 7, 10, 99, 100000]))] for i in range(k)]
     if big:
         counts.append(['zz', big])
+    if draw(st.integers(0, 3)) == 0:
+        # two counts whose probabilities differ by one part in 1e10 .. 1e15 (a RELATIVE near-tie: they are different values)
+        n0 = draw(st.sampled_from([10 ** 10, 10 ** 12, 3 * 10 ** 15]))
+        counts += [['near1', n0], ['near2', n0 - 1]]
     return {'counts': counts}
 
 
